@@ -20,11 +20,6 @@ func verif_harness_C01_constant() {
 	// the attack loop passes time.Since(began) of a monotonic clock
 	verif_assume(elapsed >= 0)
 
-	if verif_finding_open("C01-const-interval-zero") {
-		// listed finding: more than one hit per nanosecond of the unit
-		verif_assume(!(per > 0 && freq > 0 && per < int64(freq)))
-	}
-
 	cp := ConstantPacer{Freq: freq, Per: time.Duration(per)}
 	w, stop := cp.Pace(time.Duration(elapsed), hits)
 	wait := int64(w)
@@ -49,7 +44,8 @@ func verif_harness_C01_constant() {
 
 	if verif_mi_lt(H, expected) {
 		// running behind the schedule: catch up without waiting
-		verif_assert(wait == 0 && !stop, "C01.const.catch-up-when-behind")
+		// (zero or negative waits make time.Sleep return immediately)
+		verif_assert(wait <= 0 && !stop, "C01.const.catch-up-when-behind")
 		return
 	}
 
@@ -94,4 +90,31 @@ func verif_harness_C01_constant() {
 	}
 	verif_assert(verif_mi_le(verif_mi_mul(H, P), verif_mi_mul(F, release)),
 		"C01.const.U-at-most-one-ahead")
+}
+
+// Witness of the listed finding C01-const-truncated-interval-drift: inside the
+// region (hits+1)*(Per mod Freq) > Per the truncated interval releases hits
+// ahead of the declared rate. Expected to be violated while the finding is
+// open; if the entry is removed or marked fixed this is an ordinary check.
+//
+//verif:harness mode=int solver=z3 unwind=4 timeout=20000 witness=C01-const-truncated-interval-drift
+func verif_harness_C01_constant_kf_drift() {
+	freq := verif_nondet_int("freq")
+	per := verif_nondet_i64("per")
+	elapsed := verif_nondet_i64("elapsed")
+	hits := verif_nondet_u64("hits")
+	verif_assume(elapsed >= 0 && freq > 0 && per > 0)
+	F, P, E, H := verif_mi_i(int64(freq)), verif_mi_i(per), verif_mi_i(elapsed), verif_mi_u(hits)
+	interval := verif_mi_div(P, F)
+	rem := verif_mi_sub(P, verif_mi_mul(F, interval))
+	verif_assume(verif_mi_lt(P, verif_mi_mul(verif_mi_add(H, verif_mi_i(1)), rem)))
+	w, stop := ConstantPacer{Freq: freq, Per: time.Duration(per)}.Pace(time.Duration(elapsed), hits)
+	if stop {
+		return
+	}
+	release := E
+	if int64(w) > 0 {
+		release = verif_mi_add(E, verif_mi_i(int64(w)))
+	}
+	verif_assert(verif_mi_le(verif_mi_mul(H, P), verif_mi_mul(F, release)), "C01.const.U-at-most-one-ahead")
 }
